@@ -187,7 +187,13 @@ let sent_size_of_step (step_obs : Sexp.t) : Sexp.t option =
   | _ -> None
 
 let event_of_sx (step : Sexp.t) (step_obs : Sexp.t) : event option = match Sexp.list step with
-  | Sexp.A "connect" :: c :: ver :: rest -> Some (EConnect (n_of_sx c, connect_of_sx ver rest))
+  | Sexp.A "connect" :: c :: ver :: rest ->
+    (* the model covers protocol levels 3 (3.1), 4 (3.1.1) and 5; the decoder refuses any other level before the
+       broker sees a CONNECT (the socket is closed without CONNACK): outside the model's domain *)
+    (match int_of_string_opt (Sexp.atom ver) with
+     | Some (3 | 4 | 5) -> ()
+     | _ -> raise (Unsupported_pkt "protocol_level"));
+    Some (EConnect (n_of_sx c, connect_of_sx ver rest))
   | [Sexp.A "open"; c] -> Some (EOpen (n_of_sx c))
   | [Sexp.A "send"; c; p] ->
     (match sent_of_step step_obs with
@@ -343,7 +349,12 @@ and run_with' (oracle : oracle_fn) (input : Sexp.t) (impl : Sexp.t) : Verdict.t 
     | Sexp.L [Sexp.A "publish"; d; q; r; _; p; pid; (Sexp.L (Sexp.A "props" :: ps) as pp)] when List.exists (fun pr -> prop_name pr = "alias") ps ->
       Sexp.L [Sexp.A "publish"; d; q; r; Sexp.A "_"; p; pid; pp]
     | _ -> x in
-  let mask step = List.map (fun (c, pk, o) -> (c, List.sort compare (List.map (fun x -> blank_aliased (strip_pid_all x)) (split_flows pk)), o)) step in
+  (* the pick search matches steps with the Message Expiry values blanked (see the tolerance below) *)
+  let rec blank_expiry x = match x with
+    | Sexp.L [Sexp.A "msgexpiry"; _] -> Sexp.L [Sexp.A "msgexpiry"; Sexp.A "_"]
+    | Sexp.L l -> Sexp.L (List.map blank_expiry l)
+    | a -> a in
+  let mask step = List.map (fun (c, pk, o) -> (c, List.sort compare (List.map (fun x -> blank_expiry (blank_aliased (strip_pid_all x))) (split_flows pk)), o)) step in
   let imasked = List.map mask iraw in
   (* the broker's random choices (member of a share group, which of several equal-QoS subscriptions an
      onlyonce copy goes through) are resolved from its own trace: breadth-first over the choices, keeping
@@ -394,8 +405,25 @@ and run_with' (oracle : oracle_fn) (input : Sexp.t) (impl : Sexp.t) : Verdict.t 
     go [(s0, [])] events imasked in
   let paths = run_path (st_init cfg hooks []) in
   let cands = List.map (fun (_, acc) -> rename_pids (List.rev acc)) paths in
-  let mobs = match List.find_opt (fun m -> m = iobs) cands with Some m -> m | None -> (match cands with m :: _ -> m | [] -> []) in
-  let agree = (mobs = iobs) in
+  (* The broker ages the forwarded Message Expiry Interval with the real clock, the model with the scripted one: when
+     the machine is busy a scenario can take a second or two of wall time, so the implementation may report up to 2 s
+     less than the model (never more).  Everything else is compared exactly. *)
+  let rec near (m : Sexp.t) (i : Sexp.t) : bool = match m, i with
+    | Sexp.L [Sexp.A "msgexpiry"; Sexp.A a], Sexp.L [Sexp.A "msgexpiry"; Sexp.A b] ->
+      (match int_of_string_opt a, int_of_string_opt b with
+       | Some ma, Some ib -> ib <= ma && ma - ib <= 2 && ib >= 1
+       | _ -> a = b)
+    | Sexp.L l1, Sexp.L l2 -> List.length l1 = List.length l2 && List.for_all2 near l1 l2
+    | Sexp.A a, Sexp.A b -> a = b
+    | _ -> false in
+  let near_obs (m : (int * Sexp.t list * bool) list list) (i : (int * Sexp.t list * bool) list list) =
+    List.length m = List.length i &&
+    List.for_all2 (fun sm si -> List.length sm = List.length si &&
+                                List.for_all2 (fun (c1, p1, o1) (c2, p2, o2) -> c1 = c2 && o1 = o2 && List.length p1 = List.length p2 && List.for_all2 near p1 p2) sm si) m i in
+  let mobs = match List.find_opt (fun m -> m = iobs) cands with
+    | Some m -> m
+    | None -> (match List.find_opt (fun m -> near_obs m iobs) cands with Some m -> m | None -> (match cands with m :: _ -> m | [] -> [])) in
+  let agree = (mobs = iobs) || near_obs mobs iobs in
   let (ok, kf, why) = oracle cfg hooks steps (List.map impl_step_obs isteps) isteps in
   let npub = List.length (List.filter (fun st -> List.exists (fun (_, pk, _) -> List.exists (fun p -> key_tp p <> None) pk) st) iobs) in
   { Verdict.agree; oracle = ok; kf; nontrivial = npub >= 1 && n >= 5;
